@@ -474,6 +474,9 @@ def replay(obname, w):
     if not w or "state" not in w:
         return {"reproduced": False, "detail": "no witness"}
     a = dict(w["state"], reaches=tuple(w["state"]["reaches"]), busy=tuple(w["state"]["busy"]), wf_cols=tuple(w["state"]["wf_cols"]))
+    if w["op"] == "delete_old":
+        n, viol = step_delete(a, w["job"], w["queue_len"], w["delete_all"])
+        return {"reproduced": bool(viol), "detail": viol[0]["violations"] if viol else "not reproduced"}
     if w["op"] == "prep_md_items":
         n, viol = step_prep(a)
         return {"reproduced": bool(viol), "detail": viol[0]["violations"] if viol else "not reproduced"}
@@ -482,3 +485,150 @@ def replay(obname, w):
     else:
         n, viol, _ = step_treat(a, w["job"], w["status"], tuple(w["new_reaches"]) if w.get("new_reaches") else None)
     return {"reproduced": bool(viol), "detail": viol[0]["violations"] if viol else "not reproduced"}
+
+
+# ------------------------------------------------------------------ delete_old step (C14, C08)
+class _OsProxy:
+    def __init__(self, real, log):
+        self._real, self._log = real, log
+        self.path = _PathProxy(real.path)
+
+    def __getattr__(self, name):
+        return getattr(self._real, name)
+
+    def remove(self, p):
+        self._log.append(("remove", str(p)))
+
+    def rmdir(self, p):
+        self._log.append(("rmdir", str(p)))
+
+
+class _PathProxy:
+    def __init__(self, real):
+        self._real = real
+
+    def __getattr__(self, name):
+        return getattr(self._real, name)
+
+    def isfile(self, p):
+        return True
+
+
+def step_delete(a, job, queue_len, delete_all):
+    """treat_output (ACC) with output.delete_old: which files are removed, and when."""
+    from symnp.npproxy import NPProxy
+    from symnp.sym import explore
+    from vf.repex_harness import FakePath, patch_module, unpatch_module
+    import infretis.classes.repex as rx
+    N, n = a["N"], a["N"] + 2
+
+    def run(ex):
+        rx_, st, eff = _mk(ex, a)
+        proxy = NPProxy()
+        rx.np = proxy
+        saved = patch_module(rx, eff)
+        log = []
+        real_os = rx.os
+        rx.os = _OsProxy(real_os, log)
+        try:
+            st.config["output"]["delete_old"] = True
+            st.config["output"]["delete_old_all"] = delete_all
+            for p, dct in st.traj_data.items():
+                dct["adress"] = {f"load/{p}/accepted/traj{p}.xyz"}
+            st.pn_olds = {}
+            for q in range(queue_len):
+                pn = 40 + q
+                st.pn_olds[str(pn)] = {"adress": {f"load/{pn}/accepted/traj{pn}.xyz", f"load/{pn}/accepted/b{pn}.xyz"}}
+            queue0 = list(st.pn_olds)
+            live0 = [t.path_number for t in st._trajs[:-1]]
+            picked = {}
+            for e in job:
+                old = st._trajs[e]
+                cv = [1.0] * (N + 1) if e else None
+                new = FakePath(None, (1.0,) if e == 0 else [1.0 if c < e else 0.0 for c in range(N + 1)][:N + 1])
+                if e:
+                    new.weights = tuple([1.0 if c < max(e, 1) else 0.0 for c in range(N + 1)])
+                new.adress = {"worker0/new.xyz"}
+                picked[e - 1] = {"pn_old": old.path_number, "traj": new, "ens": st.ensembles[e]}
+            md = {"picked": picked, "status": "ACC", "pnum_old": [st._trajs[e].path_number for e in job], "pin": 0, "md_start": 0.0,
+                  "moves": [], "trial_len": [], "trial_op": [], "generated": [], "ens_nums": [e - 1 for e in job]}
+            st.treat_output(md)
+            bad = []
+            removed = [p for op_, p in log if op_ == "remove"]
+            live = [t.path_number for t in st._trajs[:-1]]
+            initial = set(range(n - 1))
+            replaced_now = [p for p in md["pnum_old"]]
+            for f in removed:
+                owner = f.split("/")[1] if f.startswith("load/") else "?"
+                if owner.isdigit() and int(owner) in live:
+                    bad.append(f"deleted {f}: a file of the LIVE path {owner}")
+                if owner.isdigit() and int(owner) in initial:
+                    bad.append(f"deleted {f}: a file of the initial path {owner}")
+                if owner.isdigit() and int(owner) in replaced_now:
+                    bad.append(f"deleted {f}: path {owner} was replaced in this very step (no lag)")
+            # FIFO with lag: a deletion happens only when the queue was full, and removes the oldest entry's files (first)
+            expect_queue = list(queue0)
+            expect_removed = []
+            for p in replaced_now:
+                if p > n - 2:
+                    if len(expect_queue) > n - 2:
+                        d = expect_queue.pop(0)
+                        expect_removed += [d]
+                    if len(expect_queue) <= n - 2:
+                        expect_queue.append(str(p))
+            if list(st.pn_olds) != expect_queue:
+                bad.append(f"delete queue is {list(st.pn_olds)}, expected FIFO {expect_queue}")
+            owners = sorted({f.split("/")[1] for f in removed})
+            if owners != sorted(expect_removed):
+                bad.append(f"files of paths {owners} deleted, expected exactly the oldest queued path(s) {expect_removed}")
+            for k in st.pn_olds:
+                if int(k) in initial:
+                    bad.append(f"initial path {k} queued for deletion")
+            return bad, None
+        finally:
+            rx.os = real_os
+            unpatch_module(rx, saved)
+            rx.np = np
+
+    runs = explore(run, max_paths=50)
+    return len(runs), [{"state": _ser(a), "op": "delete_old", "job": job, "queue_len": queue_len, "delete_all": delete_all, "violations": bad} for ex, (bad, _) in runs if bad]
+
+
+def run_delete_states(spec, tier, seed):
+    import time
+    t0 = time.time()
+    viol, n = [], 0
+    for a in spec["states"]:
+        a = dict(a, reaches=tuple(a["reaches"]), busy=tuple(a["busy"]), wf_cols=tuple(a["wf_cols"]))
+        for job in a["jobs"]:
+            for q in range(0, a["N"] + 2):
+                for da in (False, True):
+                    k, v = step_delete(a, job, q, da)
+                    n += k
+                    viol += v
+    CATS = [("never_a_live_or_initial_path", ("LIVE", "initial")), ("only_after_the_configured_lag_oldest_first", ("lag", "FIFO", "oldest"))]
+    obs = []
+    for cat, keys in CATS:
+        vs = [dict(v, violations=[m]) for v in viol for m in v["violations"] if any(k in m for k in keys)]
+        o = {"name": f"REPEX_state.treat_output.delete_old/{cat}", "result": "sat" if vs else "unsat", "label": "proved-per-shape", "backend": "E2-harness", "time_s": round(time.time() - t0, 2), "engine": "E2"}
+        if vs:
+            o["witness"], o["solver_output"] = vs[0], str(vs[0]["violations"])
+        obs.append(o)
+    return {"job": spec["name"], "obligations": obs, "coverage_extra": {"delete_old_runs": n}}
+
+
+def make_delete_jobs(tier, nchunks=14):
+    states = []
+    for N in (2, 3):
+        for s in abstract_states(N):
+            if not s["jobs"]:
+                continue
+            base = _ser(s)
+            for numbers in (tuple(range(N + 1)), tuple(range(10, 11 + N)), tuple([0] + list(range(10, 10 + N)))):
+                states.append(dict(base, numbers=list(numbers)))
+    js = []
+    for c in range(nchunks):
+        chunk = states[c::nchunks]
+        if chunk:
+            js.append(("py", {"name": f"delete_states_{c}", "module": "props._repex", "fn": "run_delete_states", "states": chunk, "cost": len(chunk)}))
+    return js
